@@ -45,7 +45,7 @@ def valid_doc(rnd, lang="en"):
     K = {"en": ("Feature", "Background", "Scenario", "Scenario Outline", "Examples", "Rule", "Given ", "When ", "Then ", "And "),
          "de": ("Funktionalität", "Grundlage", "Szenario", "Szenariogrundriss", "Beispiele", "Regel", "Angenommen ", "Wenn ", "Dann ", "Und ")}[lang]
     lines = []
-    marks = {"after_step": [], "first_step_no_bg": [], "plain_scenario_after_steps": [], "table_rows": [], "before_scenario": []}
+    marks = {"after_step": [], "first_step_no_bg": [], "plain_scenario_after_steps": [], "table_rows": [], "table_rows2": [], "before_scenario": []}
     if lang != "en":
         lines.append("# language: %s" % lang)
     lines.append("%s: F" % K[0])
@@ -73,6 +73,7 @@ def valid_doc(rnd, lang="en"):
                 lines.append(rnd.choice(["      # note", ""]))
                 lines.append("      | 3 | 4 |")
             marks["table_rows"].append(len(lines))
+            marks["table_rows2"].append(len(lines))
         elif rnd.random() < 0.3:
             lines.append('      """')
             lines.append("      doc")
@@ -123,6 +124,8 @@ def faults(rnd, lang):
         res.append((lines[:pos] + ["    " + kw[2]] + lines[pos:], pos + 1, "and-without-step"))
     for pos in marks["table_rows"]:
         res.append((lines[:pos] + ["      | a | b | c | d |"] + lines[pos:], pos + 1, "ragged-table-row"))
+    for pos in marks["table_rows2"]:
+        res.append((lines[:pos] + ["      | a |"] + lines[pos:], pos + 1, "short-table-row"))
     for pos in marks["before_scenario"]:
         res.append((lines[:pos] + ["  @a b"] + lines[pos:], pos + 1, "malformed-tag"))
     return res
